@@ -126,7 +126,12 @@ func c11CheckOne(r *verifmc.Report, cnt *c11Counts, t *ref.C11Type, v *ref.C11Va
 		}
 	}
 
-	// round trip
+	// round trip.  For a value with a multi-entry map gossamer's own output varies from call to call
+	// (reported above); the round trip is then evaluated on the ascending-key encoding - one of the
+	// orders - so that the verdict is reproducible.
+	if c11MaxMapEntries(t, v) >= 2 {
+		enc = ref.C11Enc(t, c11Unsign(t, v)) // negative Go ints: the two's complement uint64, as gossamer writes them
+	}
 	dest := c11Dest(t)
 	if p, msg := verifmc.Guard(func() { err = Unmarshal(enc, dest.Interface()) }); p {
 		r.Violate("Unmarshal:panic@"+c11PanicSite(msg), fmt.Sprintf("Unmarshal(Marshal(%s %s) = %x) panics: %s", cs.Type, cs.Value, enc, msg), cs)
@@ -142,7 +147,7 @@ func c11CheckOne(r *verifmc.Report, cnt *c11Counts, t *ref.C11Type, v *ref.C11Va
 		cnt.outcome["roundtrip:decode-error"]++
 		return
 	}
-	limit := 1 << 22
+	limit := 1 << 28 // harness guard only; far above the largest generated value
 	back, cerr := c11FromGo(t, dest.Elem(), &limit)
 	if cerr != nil {
 		r.Violate("Unmarshal:malformed-result:"+cerr.Error(), fmt.Sprintf("Unmarshal(Marshal(%s %s) = %x) left %s", cs.Type, cs.Value, enc, cerr), cs)
